@@ -17,7 +17,7 @@ INT_CORE = [
     "0", "1", "-1", "127", "128", "-32", "-33", "255", "256", "65535", "65536", "2**31-1", "2**31", "2**32-1", "2**32",
     "2**63-1", "2**63", "2**64-1", "2**64", "-2**63", "-2**63-1", "2**200", "-2**200", "-2**31", "-2**31-1",
 ]
-UINT16_CORE = ["0", "1", "65535", "80", "True"]
+UINT16_CORE = ["0", "1", "65535", "80"]
 UINT32_CORE = ["0", "1", "65536", "2**31-1", "2**31", "2**32-1"]
 BOOL_CORE = ["True", "False", "0", "1"]
 FLOAT_CORE = ["0.0", "-0.0", "1.5", "0.1", "nan", "inf", "-inf", "5e-324", "1.7976931348623157e308", "float(2**53+1)",
